@@ -7,7 +7,7 @@ from ..build import sym
 COND_CLASSES = ["ConditionalGaussianPDF", "ConditionalGaussianDiagPDF", "ConditionalIdentityGaussianPDF",
                 "ConditionalIdentityDiagGaussianPDF"]
 BATCH_CTX = ["1/1", "n/1", "1/n"]          # (R_cond / R_x)
-ROUTE_CTX = ["1/1@Sigma", "1/1@Lambda", "n/1@Lambda", "1/1@updated", "n/1@updated"]     # constructor routes of the conditional (covariance only / precision only)
+ROUTE_CTX = ["1/1@Sigma", "1/1@Lambda", "n/1@Lambda", "1/1@updated", "n/1@updated", "1/1@diagprior"]     # constructor routes of the conditional (covariance only / precision only)
 REGIMES = ["Dx>Dy", "Dx<=Dy"]
 
 
@@ -54,6 +54,11 @@ def setup_cond(cls, ctx, regime="Dx<=Dy", px_args="full"):
         S2 = nf.atom("Sigma2(c)", [Rc, Dy, Dy], sym=True, owner="c")
         I.call_method(c, "update_Sigma", [S2])
         c.meta["given"] = {"Sigma": S2}
+    elif cargs == "diagprior":
+        # the prior is a GaussianDiagPDF instance (results must not inherit its class unless their covariance is diagonal)
+        c = build.conditional(I, Rc, Dy, Dx, "c", cls=cls, args="full")
+        px = build.pdf(I, Rx, Dx, "px", cls="GaussianDiagPDF", args="Sigma", diag=True)
+        return I, c, px, (Rc, Rx, Dy, Dx)
     else:
         c = build.conditional(I, Rc, Dy, Dx, "c", cls=cls, args=cargs)
     px = build.pdf(I, Rx, Dx, "px", args=px_args)
